@@ -128,12 +128,16 @@ def near_integer(exact, rel=REL):
 
 
 def floor_candidates(exact):
-    """Acceptable results of floor() of a real whose float image is near an integer."""
+    """
+    Acceptable results of floor() of a real whose float image is near an integer.
+    Around zero nothing is ambiguous: float multiplication/division keeps the sign and an exact zero stays zero.
+    """
     fl = exact.numerator // exact.denominator
     out = {fl}
     if near_integer(exact):
         n = round(exact)
-        out |= {n, n - 1}
+        if n != 0:
+            out |= {n, n - 1}
     return out
 
 
@@ -142,9 +146,10 @@ def trunc_candidates(exact):
     out = {t}
     if near_integer(exact):
         n = round(exact)
-        out |= {n, n - 1 if n > 0 else n + 1 if n < 0 else 0}
-        if n == 0:
-            out |= {0}
+        if n > 0:
+            out |= {n, n - 1}
+        elif n < 0:
+            out |= {n, n + 1}
     return out
 
 
